@@ -41,7 +41,7 @@ Print Assumptions C16_paired.
    499 recorded, and in every mode (including the abort during body copy) the listener trace is [connected; disconnected] *)
 Theorem C16_failure_modes : forall s,
   proxy_status Refused s = 502 /\ proxy_status ResetBeforeHead s = 502 /\ proxy_status ClosedBeforeHead s = 502 /\
-  proxy_status HeaderTimeout s = 504 /\ proxy_status ClientCanceled s = 499 /\
+  proxy_status HeaderTimeout s = 504 /\ proxy_status RequestDeadline s = 504 /\ proxy_status ClientCanceled s = 499 /\
   proxy_status Normal s = s /\ proxy_status TruncatedBody s = s /\ proxy_status ResetAfterHead s = s /\
   forall m, fst (serve_state_listener (handler_outcome m)) = [Connected; Disconnected].
 Proof. intros s. repeat split. intros m. rewrite paired. reflexivity. Qed.
